@@ -10,9 +10,9 @@ import re
 from harness import project, tlc
 from harness.par import pmap
 
-DEST = {"plain": "http://x.y/p", "parens": "http://x.y/a_(b)", "escparen": "http://x.y/a\\)b", "space": "<http://x.y/a b>", "empty": "",
+DEST = {"plain": "http://x.y/p", "parens": "http://x.y/a_(b)", "escparen": "http://x.y/a\\)b", "revparen": "http://x.y/a\\)b\\(c", "space": "<http://x.y/a b>", "empty": "",
         "amp": "http://x.y/?a=1&b=2", "email": "joe@x.y"}
-DEST_VALUE = {"plain": "http://x.y/p", "parens": "http://x.y/a_(b)", "escparen": "http://x.y/a)b", "space": "http://x.y/a b", "empty": "",
+DEST_VALUE = {"plain": "http://x.y/p", "parens": "http://x.y/a_(b)", "escparen": "http://x.y/a)b", "revparen": "http://x.y/a)b(c", "space": "http://x.y/a b", "empty": "",
               "amp": "http://x.y/?a=1&b=2", "email": "joe@x.y"}
 TITLE = {"none": "", "dq": '"the title"', "sq": "'the title'", "par": "(the title)", "dqesc": '"say \\"hi\\" now"', "dqend": '"say \\"hi\\""', "sqdq": "'it \"is\" so'", "bs": '"a\\\\b c"'}
 TITLE_VALUE = {"none": None, "dq": "the title", "sq": "the title", "par": "the title", "dqesc": 'say "hi" now', "dqend": 'say "hi"', "sqdq": 'it "is" so', "bs": "a\\b c"}
@@ -52,7 +52,7 @@ def dest_piece(raw: str):
     kind = next((k for k, v in DEST_VALUE.items() if v == val and k != "email"), None)
     if kind is None:
         return dict(k="?" + raw, angle=angle, esc=False)
-    esc = "\\)" in body
+    esc = "\\)" in body or "\\(" in body
     if kind == "escparen" and not esc and not angle:
         esc = False
     return dict(k=kind, angle=angle, esc=esc)
